@@ -42,6 +42,26 @@ def corpus():
     return [t for t in texts if CW.in_domain(t)]
 
 
+def big_texts(corp, tier):
+    """Texts that cross the usual size thresholds (8 KiB buffers, 64 KiB hints, 128 KiB pipes, 1 MiB): the corpus glued
+    together until the size is reached. Deterministic; only line terminator is \n."""
+    sizes = [9000, 66000, 70000, 140000, 270000] + ([600000, 1100000] if tier == 'thorough' else [])
+    pool = [t for t in corp if 0 < len(t) < 20000]
+    out = []
+    for k, size in enumerate(sizes):
+        parts, total, i = [], 0, k * 37
+        while total < size and pool:
+            t = pool[i % len(pool)]
+            i += 1
+            t = t if t.endswith('\n') else t + '\n'
+            parts.append(t + '\n')
+            total += len(t) + 1
+        text = ''.join(parts)
+        out.append(text)                  # ends with a blank line
+        out.append(text.rstrip('\n'))     # no final newline
+    return out
+
+
 def gen_text(rng, corp):
     x = rng.random()
     if corp and x < 0.40:
